@@ -730,9 +730,18 @@ package originium
 //@ waitlevel recv:result.Done 5
 //
 // the flusher: senders on flushC/closeC and the receiver of `closed` wait for this goroutine
+// C01 (background side, one step): after a flush the flusher removes the *oldest* immutable memtable
+// (position 0 of the list) - the one the flush queue delivered, given that rawset pushes and sends in
+// the same order and the channel is FIFO (that correspondence itself is not checked).
+//@ ghost RmFront Int
 //@ func (*originium.DB).run
-//@ trusted thread entry; only its lock and wait-level clauses are checked against the body (C12, C15)
+//@ props C01 C12 C15
+//@ thin ^assert
+//@ assigns writeset
 //@ serves send:originium.DB.flushC send:originium.DB.closeC recv:originium.DB.closed
+//@ after_call (*list.List).Front#0: ghost RmFront = ref(result)
+//@ after_call (*list.List).Remove#0: assert RmFront != 0 ==> ElOf[RmFront] == 0
+//@ before_call (*list.List).Remove#0: assert RmFront == 0 || ElIdx[RmFront] == 0
 //
 // C14 / C03 (recovery of the table side): a table file whose footer cannot be read or decoded - empty
 // or cut short, the leftover of a flush or compaction that a crash interrupted before the file was
